@@ -85,6 +85,19 @@ impl CompileState<'_> {
             fields.push((field_name.clone(), e));
         }
 
+        // Every field of the definition must be given a value, either directly or through a
+        // `...source`; a struct value with a missing member fails later at run time.
+        if let Some(missing) = struct_def
+            .iter()
+            .find(|def| !s.fields.iter().any(|(name, _)| name.inner == def.identifier.inner))
+        {
+            let note = format!(
+                "field `{}` of `struct {}` is missing from the struct literal",
+                missing.identifier.inner, s.identifier
+            );
+            return Err(self.err(NotDefined(note, s.span())));
+        }
+
         Ok(thir::NamedStruct {
             identifier: s.identifier.clone(),
             fields,
